@@ -536,6 +536,23 @@ def main(argv=None):
             if t is not None and v < '2.7':
                 # five characters in MSH-2 below 2.7: the code rejects the text; only the model comparison looks at it
                 header_texts.append(build_text(v, ec, content[:1], True))
+        # ---- a default set installed earlier in the process (set_default_encoding_chars) does not decide what a message
+        # built with its OWN set carries: the truncation character is emitted exactly when supplied and v >= 2.7
+        if v >= '2.7':
+            saved_default = hl7apy._DEFAULT_ENCODING_CHARS
+            try:
+                hl7apy.set_default_encoding_chars(ec_dict(DEFAULT5))
+                for ecx in (DEFAULT6, random_ec(rng, True)):
+                    stats['after_set_default'] = stats.get('after_set_default', 0) + 1
+                    try:
+                        m, assigned = build_api(v, ecx, TOLERANT, tolerant_content(rng, ecx))
+                    except Exception as ex:  # noqa
+                        run.fail('construction-raises', 'building a message with a valid set raised', version=v, ec=ecx,
+                                 level=TOLERANT, exc=repr(ex), content='after set_default_encoding_chars')
+                        continue
+                    check_message(run, m, ecx, v, TOLERANT, 'api-after-set-default', {'assigned': assigned})
+            finally:
+                hl7apy._DEFAULT_ENCODING_CHARS = saved_default
         # ---- sets in which '.' has a role (oracle only: the model's domain excludes them because the version
         # string written in MSH-12 contains '.'; the property quantifies over ALL punctuation characters)
         for role in range(5):
